@@ -12,6 +12,37 @@ partial def algOfJ : J → Option Alg
   | J.l [J.n 5] => some .bioCo
   | J.l [J.n 6, J.l xs] => do let ys ← xs.mapM algOfJ; pure (.bioConsert ys)
   | J.l [J.n 7, a] => do let x ← algOfJ a; pure (.parCons x)
+  -- the selector: [8, enum value, [] | [[starters…]] (BIOCONSERT) | [aux] (PARCONS)]
+  | J.l [J.n 8, J.n v, J.l ps] => do
+    let a ← AlgName.ofValue? v.toNat
+    if v < 0 then none
+    let p : Params ← match a, ps with
+      | _, [] => some {}
+      | .BIOCONSERT, [J.l xs] => do let ys ← xs.mapM algOfJ; pure { starters := some ys }
+      | .PARCONS, [x] => do let y ← algOfJ x; pure { aux := some y }
+      | _, _ => none
+    getAlgorithm a p
+  | _ => none
+
+partial def algToJ : Alg → J
+  | .exact => J.l [J.n 0]
+  | .kwik => J.l [J.n 1]
+  | .copeland => J.l [J.n 2]
+  | .borda => J.l [J.n 3]
+  | .pickAPerm => J.l [J.n 4]
+  | .bioCo => J.l [J.n 5]
+  | .bioConsert st => J.l [J.n 6, J.l (st.map algToJ)]
+  | .parCons aux => J.l [J.n 7, algToJ aux]
+
+/-- [configuration term the selector builds, listed by get_all_compatible_with_any_scoring_scheme, get_all values,
+     compatible values] -/
+def c14Factory (j : J) : Option J := do
+  match j with
+  | J.l [J.n 8, J.n v, _] =>
+    let alg ← algOfJ j
+    let a ← AlgName.ofValue? v.toNat
+    pure (J.l [algToJ alg, toJ (AlgName.compatibleWithAny.contains a),
+               J.l (AlgName.getAll.map fun x => J.n x.value), J.l (AlgName.compatibleWithAny.map fun x => J.n x.value)])
   | _ => none
 
 def c14Relevant (j : J) : Option J := do
@@ -22,6 +53,6 @@ def c14Relevant (j : J) : Option J := do
     pure (J.l [toJ (relevant alg S), toJ (mayRefuse alg S false), toJ (mayRefuse alg S true), toJ (exactRefusal alg)])
   | _ => none
 
-def c14Ops : List (String × (J → Option J)) := [("c14.relevant", c14Relevant)]
+def c14Ops : List (String × (J → Option J)) := [("c14.relevant", c14Relevant), ("c14.factory", c14Factory)]
 
 end Corankco.Driver
